@@ -286,6 +286,11 @@ def r11_7(run):
     run.ob('R11.7', sa, sa.node, 'wrap tests examined', True)
 
 
+def r11_8(run):
+    from . import c10
+    c10.wrapper_callbacks(run, 'R11.8')
+
+
 def r11_6(run):
     us = [CU(run, '_do_setup'), CU(run, '_get_defaults'), run.idx.find_method(TC(run), 'from_protocol')]
     k = dropped_deferreds(run, 'R11.6', [u for u in us if u is not None], 'the configuration bootstrap')
@@ -294,6 +299,7 @@ def r11_6(run):
 
 RULES = [
     ('R11.7', 'every assigned list value gets its own tracked wrapper (no aliasing between options)', r11_7),
+    ('R11.8', 'every tracked list\'s modification callback binds its own option name eagerly (partial / lambda default), equal to the key it is stored under', r11_8),
     ('R11.6', 'no dropped Deferred in the configuration bootstrap (every GETCONF is awaited before the view is declared ready)', r11_6),
     ('R11.5', 'sibling agreement: default lookup + parse on the unset leg in _do_setup and _conf_changed; key-form agreement of list_parsers writers/reader', r11_5),
     ('R11.1', 'store-site typing: every value stored under a Tor option key that may be list-typed is a _ListWrapper (or excluded by a dominating test / copied from the wrapped pending set)', r11_1),
@@ -305,6 +311,7 @@ RULES = [
 from ..selftest import M  # noqa: E402
 F = 'txtorcon/torconfig.py'
 MUTANTS = [
+    M('conf-changed-late-bound-callback', F, "                v = _ListWrapper(\n                    v, functools.partial(self.mark_unsaved, real_name))\n            else:\n                if v == DEFAULT_VALUE:", "                v = _ListWrapper(v, lambda: self.mark_unsaved(real_name))\n            else:\n                if v == DEFAULT_VALUE:", ['R11.8']),
     M('post-bootstrap-not-awaited', F, "        cfg = TorConfig(control=proto)\n        yield cfg.post_bootstrap", "        cfg = TorConfig(control=proto)\n        cfg.post_bootstrap", ['R11.6']),
     M('conf-changed-unwrapped', F, "                v = _ListWrapper(\n                    v, functools.partial(self.mark_unsaved, real_name))\n            else:\n                if v == DEFAULT_VALUE:", "                pass\n            else:\n                if v == DEFAULT_VALUE:", ['R11.1']),
     M('conf-changed-plain-parse', F, "            if real_name in self.list_parsers:\n                # same shape", "            if False and real_name in self.list_parsers:\n                # same shape", ['R11.1']),
@@ -319,6 +326,7 @@ MUTANTS = [
     M('commalist-returns-str', F, "class CommaList(TorConfigType):\n    def parse(self, s):\n        return [x.strip() for x in s.split(',')]", "class CommaList(TorConfigType):\n    def parse(self, s):\n        return s", ['R11.4']),
 ]
 TWINS = [
+    M('conf-changed-default-bound-lambda', F, "                v = _ListWrapper(\n                    v, functools.partial(self.mark_unsaved, real_name))\n            else:\n                if v == DEFAULT_VALUE:", "                v = _ListWrapper(v, lambda n=real_name: self.mark_unsaved(n))\n            else:\n                if v == DEFAULT_VALUE:"),
     M('conf-changed-not-in', F, "            if real_name in self.list_parsers:\n                # same shape as _do_setup produces: a tracked list,\n                # whether Tor reports zero, one or many values\n                if v == DEFAULT_VALUE:\n                    v = self._defaults.get(real_name, [])\n                elif real_name in self.parsers:\n                    v = self.parsers[real_name].parse(v)\n                if not isinstance(v, list):\n                    v = [v]\n                v = _ListWrapper(\n                    v, functools.partial(self.mark_unsaved, real_name))\n            else:\n                if v == DEFAULT_VALUE:\n                    v = self._defaults.get(real_name, DEFAULT_VALUE)\n                if real_name in self.parsers and v != DEFAULT_VALUE:\n                    v = self.parsers[real_name].parse(v)\n",
       "            if real_name not in self.list_parsers:\n                if v == DEFAULT_VALUE:\n                    v = self._defaults.get(real_name, DEFAULT_VALUE)\n                if real_name in self.parsers and v != DEFAULT_VALUE:\n                    v = self.parsers[real_name].parse(v)\n            else:\n                if v == DEFAULT_VALUE:\n                    v = self._defaults.get(real_name, [])\n                elif real_name in self.parsers:\n                    v = self.parsers[real_name].parse(v)\n                if not isinstance(v, list):\n                    v = [v]\n                v = _ListWrapper(\n                    v, functools.partial(self.mark_unsaved, real_name))\n"),
 ]
